@@ -16,7 +16,7 @@ import (
 // symbolically: loads of the text box's width are OLD before the store and the stored value after it.
 func c11SpaceWidth(c *core.Check) {
 	p := c.Prog
-	r := c.Rule("R12", "removeLastWhitespace: on every path, the amount subtracted from the width of the ancestors equals the text box's width on entry minus the width stored into the text box (linear forms over the loads, the store splitting old from new)", 4)
+	r := c.Rule("R12", "removeLastWhitespace: on every path, the amount subtracted from the width of the ancestors equals the text box's width on entry minus the width stored into the text box (linear forms over the loads, the store splitting old from new)", 2)
 	fn := p.Fn("html/layout", "removeLastWhitespace")
 	if fn == nil {
 		r.Anchor("html/layout.removeLastWhitespace")
